@@ -406,8 +406,50 @@ func (c *Check) randC11(r *gen.Rand, run int, seed uint64) *plan.Plan {
 		p.MapOrder = gen.RandMapOrder(r)
 	case "history":
 		nd := r.Range(2, 5)
+		var family []gen.GenDoc
+		if r.P(1, 3) {
+			// related pages: two pages, the same two in another language, and their crossovers
+			// (the head of one with the body of the other)
+			sa, sb := r.U64(), r.U64()
+			a, b := gen.Document(sa), gen.Document(sb)
+			switch r.Intn(4) {
+			case 0:
+				b = gen.DocumentInLanguage(sa, r.Intn(3))
+			case 1:
+				a, b = gen.DocumentInLanguage(sa, r.Intn(3)), gen.DocumentInLanguage(sb, r.Intn(3))
+			case 2:
+				// two language editions (other script) of one article or of two, whose metadata is shared through
+				// the crossovers; with or without a <title> element of their own
+				la := r.Intn(3)
+				lb := (la + 1 + r.Intn(2)) % 3
+				a = gen.DocumentInLanguage(sa, la)
+				if r.Bool() {
+					b = gen.DocumentInLanguage(sa, lb)
+				} else {
+					b = gen.DocumentInLanguage(sb, lb)
+				}
+				if r.Bool() {
+					a, b = gen.WithoutTitleElement(a), gen.WithoutTitleElement(b)
+				}
+			}
+			family = []gen.GenDoc{a, b}
+			if x, ok := gen.Crossover(a, b); ok {
+				family = append(family, x)
+			}
+			if x, ok := gen.Crossover(b, a); ok {
+				family = append(family, x)
+			}
+			for i := len(family) - 1; i > 0; i-- {
+				j := r.Intn(i + 1)
+				family[i], family[j] = family[j], family[i]
+			}
+			nd = len(family)
+		}
 		for i := 0; i < nd; i++ {
 			d := gen.RandDoc(r)
+			if family != nil {
+				d = family[i]
+			}
 			c.noteDoc(d)
 			id := fmt.Sprintf("d%d", i)
 			p.Docs = append(p.Docs, plan.NewDoc(id, d.Bytes, d.Origin))
@@ -552,10 +594,19 @@ func (c *Check) c13Variant(run int, seed uint64, d gen.GenDoc, url string, algo 
 			p.Options[0].URL = nil
 		}
 		np := &plan.NetPlan{Status: 200, CType: &ct, StallAt: -1, Body: rp}
+		if run%5 == 2 {
+			// the server sends the client elsewhere first: the page URL stays the address that was supplied
+			np.Redirects = 1 + run%2
+		}
 		if rp != nil && run%3 == 0 {
 			np.CLen = i64(int64(len(d.Bytes))) // an honest Content-Length: net/http then hands over the last bytes together with io.EOF
 		}
-		p.Tasks = [][]plan.Op{{{Op: "URL", Doc: "d0", Opt: "o0", URL: req, Net: np}}}
+		uop := plan.Op{Op: "URL", Doc: "d0", Opt: "o0", URL: req, Net: np}
+		if len(stalls) == 0 && run%3 != 0 {
+			// a caller timeout that an undisturbed fetch never comes near
+			uop.TimeoutMs = 2000
+		}
+		p.Tasks = [][]plan.Op{{uop}}
 	case "Reader":
 		p.Tasks = [][]plan.Op{{{Op: "Reader", Doc: "d0", Opt: "o0", Reader: rp}}}
 	default:
@@ -694,7 +745,7 @@ func (c *Check) randC13(r *gen.Rand, run int, seed uint64) *plan.Plan {
 		rp = gen.RandReader(r, len(d.Bytes), false, false)
 	}
 	q := c.c13Variant(run, seed, d, url, algo, r.P(1, 5), flags, sink, stalls, entry, rp)
-	if r.P(1, 3) {
+	if r.P(1, 3) && q.Tasks[0][0].TimeoutMs == 0 {
 		// computing takes simulated time: whatever the timing log prints is not all zeroes
 		q.Schedule.YieldCostNs = gen.Pick(r, gen.CPUCosts)
 	}
@@ -794,6 +845,27 @@ func (c *Check) fixedC01() []*plan.Plan {
 		}
 		p.Tasks = [][]plan.Op{ops}
 		out = append(out, p)
+	}
+	// every status code a server may answer with, with the headers that typically accompany it
+	// (delays and dates in Retry-After and friends), under a caller timeout of two seconds
+	{
+		r := gen.NewRand(0x57a7)
+		for lo := 0; lo < len(gen.HTTPStatuses); lo += 8 {
+			for variant := 0; variant < 2; variant++ {
+				p := c.newPlan("transport", run, uint64(lo), "bubble")
+				run++
+				p.Docs = []plan.Doc{plan.NewDoc("d0", d.Bytes, d.Origin)}
+				p.Options = []plan.Opt{{ID: "o0", Flags: uint(30 * variant)}}
+				var ops []plan.Op
+				for k := lo; k < lo+8 && k < len(gen.HTTPStatuses); k++ {
+					st := gen.HTTPStatuses[k]
+					np := plan.NetPlan{Status: st, CType: &ct, StallAt: -1, Headers: gen.StatusHeaders(r, st)}
+					ops = append(ops, plan.Op{Op: "URL", Doc: "d0", Opt: "o0", URL: "http://example.com/story/page/2", Net: &np, TimeoutMs: 2000})
+				}
+				p.Tasks = [][]plan.Op{ops}
+				out = append(out, p)
+			}
+		}
 	}
 	// prefix sweep: a compact page truncated at EVERY byte offset (stream EOF), and a sample of
 	// offsets with a read error and as a truncated file — the stream consumer's "crash at an arbitrary instant"
@@ -1276,7 +1348,52 @@ func (c *Check) fixedC12() []*plan.Plan {
 				}
 			}
 			p.Tasks = [][]plan.Op{t0, t1}
-			p.Schedule = gen.RandSchedule(gen.NewRand(uint64(0x9b0+lo)), 2, 700, 400)
+			// dense and in step: both callers pass through the same code at about the same time, so few of the
+			// incidental happens-before edges (sync.Pool objects handed from one caller to the other) come in between
+			p.Schedule = gen.RandSchedule(gen.NewRand(uint64(0x9b0+lo)), 2, []int{15, 40}[(lo/per)%2], 400)
+			p.Schedule.After = "cycle"
+			out = append(out, p)
+		}
+	}
+	// every shape of option value (URL variants incl. relative, opaque and odd ones, both algorithms and
+	// out-of-range ones, skip, all flag sets, nil) through two concurrent callers, private values and shared ones
+	{
+		d := gen.PagerDoc(0xc12f)
+		c.noteDoc(d)
+		for variant := 0; variant < 2; variant++ {
+			p := c.newPlan("option-shapes", run, uint64(variant), "race")
+			run++
+			p.Docs = []plan.Doc{plan.NewDoc("d0", d.Bytes, d.Origin)}
+			var t0, t1 []plan.Op
+			k := 0
+			add := func(o plan.Opt) {
+				id := fmt.Sprintf("%d", k)
+				k++
+				p.Trees = append(p.Trees, plan.Tree{ID: "ta" + id, Doc: "d0", Root: "document"}, plan.Tree{ID: "tb" + id, Doc: "d0", Root: "document"})
+				if variant == 0 {
+					// private but equal values
+					a, b := o, o
+					a.ID, b.ID = "oa"+id, "ob"+id
+					p.Options = append(p.Options, a, b)
+					t0 = append(t0, plan.Op{Op: "Apply", Tree: "ta" + id, Opt: a.ID})
+					t1 = append(t1, plan.Op{Op: "Apply", Tree: "tb" + id, Opt: b.ID})
+				} else {
+					o.ID = "os" + id
+					p.Options = append(p.Options, o)
+					t0 = append(t0, plan.Op{Op: "Apply", Tree: "ta" + id, Opt: o.ID})
+					t1 = append(t1, plan.Op{Op: "Apply", Tree: "tb" + id, Opt: o.ID})
+				}
+			}
+			for ui, u := range gen.URLVariants(d.URL) {
+				add(plan.Opt{URL: sp(u), Algo: uint(ui % 2), Flags: gen.AllFlagSets()[(ui*7+variant)%16]})
+			}
+			add(plan.Opt{Nil: true})
+			add(plan.Opt{})
+			add(plan.Opt{URL: sp(d.URL), Skip: true, Flags: 31})
+			add(plan.Opt{URL: sp(d.URL), Algo: 7})
+			p.Tasks = [][]plan.Op{t0, t1}
+			p.Monitor = variant == 1
+			p.Schedule = gen.RandSchedule(gen.NewRand(uint64(0x0b5+variant)), 2, 12, 400)
 			p.Schedule.After = "cycle"
 			out = append(out, p)
 		}
